@@ -8,7 +8,7 @@ use std::collections::BTreeMap;
 use std::io::Cursor;
 use std::sync::{Arc, Mutex};
 use std::time::SystemTime;
-use crate::system::{CommandLineOutput, CommandScript, System, SystemError};
+use crate::system::{CommandLineOutput, CommandScript, SystemError};
 
 /// Just enough of a file system for the two readers: flat map path -> bytes.
 #[derive(Clone)]
